@@ -179,3 +179,47 @@ pub fn width_collect<S: Src>(s: &mut S) {
     std::mem::forget(gen);
     std::mem::forget(ud);
 }
+
+/// NOT REGISTERED: attempted and out of reach (hashbrown's SIMD group probing and getrandom-seeded RandomState make the
+/// symbolic execution time out at 1500 s even for 3 elements); kept for the record.
+/// Set tables (general category, scripts, joining types, properties): common::get_codepoints_vector on a set of up to 3
+/// symbolic code points: the emitted entries denote exactly the set, ascending, no double coverage.
+pub fn set_table<S: Src>(s: &mut S) {
+    use std::collections::HashSet;
+    let mut set: HashSet<u32> = HashSet::new();
+    let n = s.below(4);
+    let mut vals = [0u32; 3];
+    let mut i = 0;
+    while i < 3 {
+        vals[i] = s.u32();
+        s.assume(vals[i] <= 0x10FFFF);
+        if i < n {
+            set.insert(vals[i]);
+        }
+        i += 1;
+    }
+    let out = crate::common::get_codepoints_vector(&set);
+    pv_note!(s, "get_codepoints_vector({:x?}) -> {:?}", &vals[..n], out);
+    let p = s.u32();
+    let mut member = false;
+    let mut i = 0;
+    while i < 3 {
+        if i < n && vals[i] == p {
+            member = true;
+        }
+        i += 1;
+    }
+    let mut hits = 0usize;
+    let mut j = 0;
+    while j < 3 {
+        if j < out.len() && contains(&out[j], p) {
+            hits += 1;
+        }
+        j += 1;
+    }
+    pv_check!(s, out.len() <= 3, "PV: a set of n code points gives at most n entries");
+    pv_check!(s, (hits == 1) == member && hits <= 1, "PV: the set table denotes exactly the code points of the set, each once");
+    pv_cover!(s, n == 3 && out.len() == 1, "COVER: three consecutive code points merged into one range");
+    std::mem::forget(out);
+    std::mem::forget(set);
+}
